@@ -860,13 +860,31 @@ func (g *G) command(depth int) []ref.Node {
 		return []ref.Node{n}
 	case 9:
 		t := []Ty{TInt, TStr}[g.R.Intn(2)]
-		n := &ref.Switch{E: g.Expr(t, 1)}
+		n := &ref.Switch{}
+		if t.K == "int" && g.R.P(1, 2) {
+			// a subject of known small value, so that cases are actually taken
+			n.E = []ref.Expr{lit(ref.Int(int64(g.R.Intn(7) - 3))), &ref.Binary{Op: "-", L: lit(ref.Int(int64(g.R.Intn(4)))), R: lit(ref.Int(int64(g.R.Intn(4))))}}[g.R.Intn(2)]
+		} else {
+			n.E = g.Expr(t, 1)
+		}
+		if t.K == "int" && g.R.P(1, 3) {
+			// a float that equals an integer: cases compare by value, 2.0 matches {case 2}
+			n.E = &ref.Binary{Op: "/", L: &ref.Paren{X: n.E}, R: lit(ref.Int(1))}
+		}
 		k := 1 + g.R.Intn(2)
 		for i := 0; i < k; i++ {
 			c := ref.SwitchCase{}
 			for j := 0; j < 1+g.R.Intn(2); j++ {
 				if t.K == "int" {
-					c.Vals = append(c.Vals, lit(ref.Int(int64(g.R.Intn(7)-3))))
+					v := int64(g.R.Intn(7) - 3)
+					switch g.R.Intn(6) {
+					case 0:
+						c.Vals = append(c.Vals, &ref.Lit{V: ref.Float(float64(v)), Src: fmt.Sprintf("%d.0", v)})
+					case 1:
+						c.Vals = append(c.Vals, &ref.Binary{Op: "+", L: lit(ref.Int(v - 1)), R: lit(ref.Int(1))})
+					default:
+						c.Vals = append(c.Vals, lit(ref.Int(v)))
+					}
 				} else {
 					c.Vals = append(c.Vals, lit(ref.Str(g.pick(PlainStrings))))
 				}
